@@ -137,8 +137,17 @@ Definition run (c : case) : list Z :=
                   g_volume := mk_target f32 f32_of_bits vol; g_rate := mk_target f64 f64_of_bits rate;
                   g_pan := mk_target f32 f32_of_bits pan; g_fade_in := option_map mk_tw fade_in |} in
       let events := flat_map mk_event evs in
-      enc_run (let! x := st_new sr (source_of audio) slice g in st_run fast tab x events)
+      (* what the handles report before the first callback, then the run *)
+      (match st_new sr (source_of audio) slice g with
+       | Ok x => bits_of_f64 (sh_pos (x_core x)) :: h_mirror (x_shell x) :: enc_run (st_run fast tab x events)
+       | Panic k => [1; panic_code k]
+       | Hang => [2]
+       end)
       ++ 777777 ::
-      enc_run (let! w := sm_new audio packets gran sr slice g in
-               let! (os, _) := sm_run fast tab audio packets gran w events in Ok os)
+      (match sm_new audio packets gran sr slice g with
+       | Ok w => bits_of_f64 (y_pos (z_core (w_sound w))) :: h_mirror (z_shell (w_sound w))
+                 :: enc_run (let! (os, _) := sm_run fast tab audio packets gran w events in Ok os)
+       | Panic k => [1; panic_code k]
+       | Hang => [2]
+       end)
   end.
